@@ -7,6 +7,7 @@ import (
 	"fmt"
 	"go/token"
 	"go/types"
+	"sort"
 
 	"golang.org/x/tools/go/ssa"
 )
@@ -187,7 +188,15 @@ func rulePileMerge(c *Ctx, rule string) {
 			}
 		}
 	}
-	verdict(insOK, "merged-inserted", "the merged interval is inserted into the same tree after the deletions", "the merged interval is not inserted into the queried tree after the absorbed ones were removed", merge.Pos())
+	if insOK {
+		// ... on every path: no return between the query and the insertion
+		for _, r := range returnsOf(merge) {
+			if reachesInstr(query, r) && !mustPassBetween(query, r, func(i ssa.Instruction) bool { return i == ssa.Instruction(insert) }) {
+				insOK = false
+			}
+		}
+	}
+	verdict(insOK, "merged-inserted", "the merged interval is inserted into the same tree after the deletions", "the merged interval is not inserted into the queried tree after the absorbed ones were removed on every path (a path that updates a stored interval in place and returns leaves the tree's cached ranges stale: later features overlapping only the extension are not merged, so piles overlap)", merge.Pos())
 }
 
 func fieldOfAny(v ssa.Value) (string, bool) {
@@ -232,7 +241,70 @@ func rulePileAdd(c *Ctx, rule string) {
 	case len(lookups) >= 2:
 		c.bad(rule, key+"duplicate-lookup-both-orientations", lookups[0].Pos(), "the two duplicate look-ups do not use the pair in swapped order: a pair added again with its features exchanged is not recognised")
 	case len(lookups) == 1:
-		c.und(rule, key+"duplicate-lookup-both-orientations", lookups[0].Pos(), "a single look-up: the rule cannot tell whether the key is canonicalised")
+		// a single look-up is right only if the pair is first put into a canonical
+		// orientation by a total order on its features: the ordering tests must
+		// involve every field of the key's element type
+		all := map[string]bool{}
+		used := map[string]bool{}
+		var elemT types.Type
+		if arr, ok := lookups[0].Index.Type().Underlying().(*types.Array); ok {
+			elemT = arr.Elem()
+			if st, ok := elemT.Underlying().(*types.Struct); ok {
+				for i := 0; i < st.NumFields(); i++ {
+					all[st.Field(i).Name()] = true
+				}
+			}
+		}
+		var fieldsIn func(v ssa.Value, d int)
+		fieldsIn = func(v ssa.Value, d int) {
+			if v == nil || d > 6 {
+				return
+			}
+			switch x := v.(type) {
+			case *ssa.UnOp:
+				if fa, ok := x.X.(*ssa.FieldAddr); ok && elemT != nil {
+					if pt, ok := fa.X.Type().Underlying().(*types.Pointer); ok && types.Identical(pt.Elem(), elemT) {
+						used[structFieldName(fa.X.Type(), fa.Field)] = true
+						return
+					}
+				}
+				fieldsIn(x.X, d+1)
+			case *ssa.Field:
+				if types.Identical(x.X.Type(), elemT) {
+					used[structFieldName(x.X.Type(), x.Field)] = true
+					return
+				}
+			case *ssa.BinOp:
+				fieldsIn(x.X, d+1)
+				fieldsIn(x.Y, d+1)
+			case *ssa.Call:
+				for _, a := range x.Call.Args {
+					fieldsIn(a, d+1)
+				}
+				if x.Call.IsInvoke() {
+					fieldsIn(x.Call.Value, d+1)
+				}
+			case *ssa.MakeInterface:
+				fieldsIn(x.X, d+1)
+			}
+		}
+		for _, b := range add.Blocks {
+			if ifi, ok := b.Instrs[len(b.Instrs)-1].(*ssa.If); ok && reaches(b, lookups[0].Block(), nil) {
+				fieldsIn(ifi.Cond, 0)
+			}
+		}
+		var missing []string
+		for f := range all {
+			if !used[f] {
+				missing = append(missing, f)
+			}
+		}
+		sort.Strings(missing)
+		if len(all) > 0 && len(missing) > 0 {
+			c.bad(rule, key+"duplicate-lookup-both-orientations", lookups[0].Pos(), fmt.Sprintf("the pair is looked up once, under an orientation chosen by tests that never look at field(s) %v of the key: two features that differ only there are not ordered, so the same pair added with its features exchanged gets a different key and is accepted", missing))
+		} else {
+			c.und(rule, key+"duplicate-lookup-both-orientations", lookups[0].Pos(), "a single look-up under an orientation chosen from all key fields: the rule cannot tell whether the ordering is total")
+		}
 	default:
 		c.bad(rule, key+"duplicate-lookup-both-orientations", add.Pos(), "Add never looks the pair up among the pairs already seen")
 	}
